@@ -532,7 +532,7 @@
     ensures
         idx < self.items@.len() ==> res == Some((&self.items@[idx as int].0, self.items@[idx as int].1)),
         idx >= self.items@.len() ==> res is None,
-//@ closure 1
+//@ closure map 1 optional
 |item: &(P, Action)| -> (r: (&P, Action)) ensures r == (&item.0, item.1)
 //@ fn AspaDelta::get
 //@ spec
@@ -540,7 +540,7 @@
         // C11: an ASPA entry is served as an announcement (Announce, Update) or a withdrawal
         idx < self.items@.len() ==> res == Some((&self.items@[idx as int].0, rtr_action(self.items@[idx as int].1))),
         idx >= self.items@.len() ==> res is None,
-//@ closure 1
+//@ closure map 1 optional
 |item: &(Aspa, AspaAction)| -> (r: (&Aspa, Action)) ensures r == (&item.0, rtr_action(item.1))
 //@ global
 // ---------------------------------------------------------------- order and clone assumptions on P
